@@ -408,17 +408,24 @@ theorem recv_array (n : Nat) (ih : Sound cfg n) (e : Ty) (r : Rng) (b : Ty) (v :
     refine ⟨Rng.sub_contains h.1 hi.1, Or.inr ?_⟩
     rw [instAll_iff]
     intro x hx
-    rcases us with us | us
-    · -- no elements possible
+    have hnone : r'.hi ≤ 0 → False := by
+      intro hz
       have : vs.length = 0 := by
         have := hi.1; simp [Rng.contains] at this; omega
       have : vs = [] := List.length_eq_zero_iff.1 this
       subst this; cases hx
+    rcases us with us | us
+    · exact absurd us hnone
     · have hx' : inst cfg false e' x = true := by
         rcases hi.2 with h2 | h2
         · exact inst_of_isAny cfg h2 x
         · exact (instAll_iff cfg false e' vs).1 h2 x hx
-      exact ih e e' x (by omega) ⟨fa, fb, wa, wb, us, H.ok.elems x hx⟩ h.2 hx'
+      have hee : asg cfg false e e' = true := by
+        have := h.2; simp only [Bool.or_eq_true, decide_eq_true_eq] at this
+        rcases this with h3 | h3
+        · exact absurd h3 hnone
+        · exact h3
+      exact ih e e' x (by omega) ⟨fa, fb, wa, wb, us, H.ok.elems x hx⟩ hee hx'
   · -- tuple
     rename_i ts' g'
     have fb := H.fb; unfold Ty.Frag at fb
@@ -492,16 +499,24 @@ theorem recv_hash (n : Nat) (ih : Sound cfg n) (k x : Ty) (r : Rng) (b : Ty) (v 
     cases v <;> simp only [] at hi ⊢ <;> (first | contradiction | skip)
     rename_i es
     simp only [Bool.and_eq_true] at hi ⊢
-    refine ⟨Rng.sub_contains h.1.1 hi.1, ?_⟩
+    refine ⟨Rng.sub_contains h.1 hi.1, ?_⟩
     rw [instEntries_iff]
     intro e he
-    rcases us with us | us
-    · have : es.length = 0 := length_zero_of_contains hi.1 us
+    have hnone : r'.hi ≤ 0 → False := by
+      intro hz
+      have : es.length = 0 := length_zero_of_contains hi.1 hz
       have : es = [] := List.length_eq_zero_iff.1 this
       subst this; cases he
+    rcases us with us | us
+    · exact absurd us hnone
     · have h2 := (instEntries_iff cfg false k' x' es).1 hi.2 e he
-      exact ⟨ih k k' e.1 (by omega) ⟨fa.1, fb.1, wa.1, wb.1, us.1, H.ok.keys e he⟩ h.1.2 h2.1,
-             ih x x' e.2 (by omega) ⟨fa.2, fb.2, wa.2, wb.2, us.2, H.ok.vals e he⟩ h.2 h2.2⟩
+      have hkv : asg cfg false k k' = true ∧ asg cfg false x x' = true := by
+        have := h.2; simp only [Bool.or_eq_true, decide_eq_true_eq, Bool.and_eq_true] at this
+        rcases this with h3 | h3
+        · exact absurd h3 hnone
+        · exact h3
+      exact ⟨ih k k' e.1 (by omega) ⟨fa.1, fb.1, wa.1, wb.1, us.1, H.ok.keys e he⟩ hkv.1 h2.1,
+             ih x x' e.2 (by omega) ⟨fa.2, fb.2, wa.2, wb.2, us.2, H.ok.vals e he⟩ hkv.2 h2.2⟩
   · -- struct
     rename_i ms'
     have fb := H.fb; unfold Ty.Frag at fb
